@@ -190,6 +190,11 @@ HasCall(e) ==
       [] e.k = "index" -> HasCall(e.e) \/ HasCall(e.i)
       [] OTHER -> TRUE
 
+(* two or more operands of one call / list display / f-string whose evaluation can be observed: Python evaluates them left to
+   right; the emitted C++ passes them as function arguments or `+` operands, whose order C++ leaves open (tag multi-effect-operands) *)
+MultiEffect(es) == Cardinality({i \in 1..Len(es) : HasCall(es[i])}) >= 2
+OrderFeat(es, s) == IF MultiEffect(es) THEN Feat(s, {"multi-effect-operands"}) ELSE s
+
 RECURSIVE Eval(_, _), EvalSeq(_, _, _), CmpChain(_, _, _, _, _), BoolChain(_, _, _, _, _), Exec(_, _, _),
           CallFn(_, _, _), FmtParts(_, _, _, _), CompList(_, _, _, _, _, _)
 
@@ -278,8 +283,10 @@ Eval(e, s) ==
            (IF IsErr(r.v) THEN r ELSE R(r.v, IF r.v.t # "b" THEN Feat(r.s, {"boolop-yields-operand"}) ELSE r.s))
       [] e.k = "ifexp" -> LET c == Eval(e.c, s1) IN
            (IF IsErr(c.v) THEN c ELSE IF Truthy(c.v, c.s.h) THEN Eval(e.a, c.s) ELSE Eval(e.b, c.s))
-      [] e.k = "fstr" -> FmtParts(e.parts, 1, <<>>, s1)
-      [] e.k = "list" -> LET r == EvalSeq(e.es, 1, s1) IN
+      [] e.k = "fstr" -> FmtParts(e.parts, 1, <<>>,
+                                  IF Cardinality({i \in 1..Len(e.parts) : e.parts[i].k = "fmt" /\ HasCall(e.parts[i].e)}) >= 2
+                                  THEN Feat(s1, {"multi-effect-operands"}) ELSE s1)
+      [] e.k = "list" -> LET r == EvalSeq(e.es, 1, OrderFeat(e.es, s1)) IN
            (IF \E i \in 1..Len(r.v) : IsErr(r.v[i]) THEN R(ERR, r.s) ELSE Alloc(r.s, r.v))
       [] e.k = "comp" -> LET c == Eval(e.count, s1) IN
            (IF IsErr(c.v) \/ c.v.t # "i" THEN R(ERR, c.s)
@@ -297,7 +304,7 @@ Eval(e, s) ==
       [] e.k = "in" -> LET x == Eval(e.x, s1)  a == Eval(e.e, x.s) IN
            (IF IsErr(x.v) \/ IsErr(a.v) \/ a.v.t # "l" THEN R(ERR, a.s)
             ELSE R(VB(\E j \in 1..Len(a.s.h[a.v.id]) : EqV(a.s.h[a.v.id][j], x.v)), Feat(a.s, {"membership"})))
-      [] e.k = "call" -> LET r == EvalSeq(e.args, 1, s1) IN
+      [] e.k = "call" -> LET r == EvalSeq(e.args, 1, IF e.f \in {"abs", "min", "max"} THEN s1 ELSE OrderFeat(e.args, s1)) IN
            (IF \E i \in 1..Len(r.v) : IsErr(r.v[i]) THEN R(ERR, r.s)
             ELSE IF e.f \in DOMAIN Defs THEN CallFn(e.f, r.v, r.s)
             ELSE R(Builtin(e.f, r.v, r.s),
